@@ -84,7 +84,14 @@ func (c *Configuration) validate() (bool, error) {
 		}
 	}
 
+	seenServiceName := make(map[string]bool)
 	for index, serviceName := range c.ServiceNameList {
+		if seenServiceName[serviceName] {
+			// the router registers one route group per entry: a repeated name makes gin panic on duplicate routes
+			err := errors.New("Invalid serviceNameList[" + strconv.Itoa(index) + "]: " + serviceName + " is listed twice")
+			return false, err
+		}
+		seenServiceName[serviceName] = true
 		switch {
 		case serviceName == "nchf-convergedcharging":
 		case serviceName == "nchf-offlineonlycharging":
